@@ -188,6 +188,8 @@ def body(task, ins, params):
         if task._config is not None:
             if kind == 'generated' and i == len(msgs) - 1:
                 late = {'rec': i, 'run': seq}   # a generator task adds its last record from the generator body
+            elif i == 0:      # a record with a tuple and a non-string key: stored and returned as it was given
+                task.save_to_run_info({'rec': i, 'run': seq, 'pair': (seq, 'x'), 7: 'seven'})
             else:
                 task.save_to_run_info({'rec': i, 'run': seq})
     entry['seq'] = seq
